@@ -472,10 +472,14 @@ class Parser:
         if self.accept_kw("WITH"):
             while True:
                 name = self.ident()
+                colnames = self.paren_idents() if self.at_op("(") else None
                 self.expect_kw("AS")
                 self.expect_op("(")
-                s.ctes.append((name, self.select()))
+                cte = self.select()
                 self.expect_op(")")
+                if colnames is not None and len(colnames) == len(cte.columns):
+                    cte.columns = [(e, n) for (e, _a), n in zip(cte.columns, colnames)]     # WITH x (a, b) AS (...): the list names the columns
+                s.ctes.append((name, cte))
                 if not self.accept_op(","):
                     break
         self.expect_kw("SELECT")
@@ -572,7 +576,7 @@ class Parser:
             s.limit = self.expr()
             if self.accept_kw("OFFSET"):
                 self.expr()
-        return s
+        return normalize_select(s)
 
     def select_core_only(self):
         # a SELECT without trailing ORDER BY consumption is not needed in
@@ -1037,12 +1041,234 @@ def is_write(st):
     )
 
 
+_NEG_CMP = {"<": ">=", "<=": ">", ">": "<=", ">=": "<", "=": "!=", "!=": "="}
+
+
 def conjuncts(e):
+    """Top-level conjuncts of a predicate.  In this position only "is it true" matters, so NOT over a comparison or an
+    IS [NOT] NULL test is pushed in (NOT (a > b) keeps exactly the rows a <= b keeps: both drop NULLs), and NOT (p OR q)
+    is split into NOT p, NOT q."""
     if e is None:
         return []
     if e[0] == "bin" and e[1] == "AND":
         return conjuncts(e[2]) + conjuncts(e[3])
+    if e[0] == "inlist" and len(e[2]) == 1 and e[2][0][0] in ("str", "num", "param", "col"):
+        return [("bin", "=", e[1], e[2][0])]          # x IN (one value)  is  x = value
+    if e[0] == "un" and e[1] == "NOT":
+        x = e[2]
+        if x[0] == "bin" and x[1] == "IS" and x[3] == ("null",):
+            return [("bin", "ISNOT", x[2], x[3])]
+        if x[0] == "bin" and x[1] == "ISNOT" and x[3] == ("null",):
+            return [("bin", "IS", x[2], x[3])]
+        if x[0] == "bin" and x[1] in _NEG_CMP:
+            return [("bin", _NEG_CMP[x[1]], x[2], x[3])]
+        if x[0] == "bin" and x[1] == "OR":
+            return conjuncts(("un", "NOT", x[2])) + conjuncts(("un", "NOT", x[3]))
+        if x[0] == "un" and x[1] == "NOT":
+            return conjuncts(x[2])
     return [e]
+
+
+def _subst_cols(e, mapping, alias):
+    """Replace ('col', alias, name) -- and unqualified ('col', None, name) when `alias` is None-safe -- by mapping[name]."""
+    if isinstance(e, tuple):
+        if len(e) == 3 and e[0] == "col":
+            if e[1] == alias and e[2] in mapping:
+                return mapping[e[2]]
+            return e
+        return tuple(_subst_cols(x, mapping, alias) for x in e)
+    if isinstance(e, list):
+        return [_subst_cols(x, mapping, alias) for x in e]
+    return e
+
+
+def _qualify(e, alias):
+    """Qualify unqualified column references with `alias` (used when a sub-select with one source is flattened)."""
+    if isinstance(e, tuple):
+        if len(e) == 3 and e[0] == "col" and e[1] is None:
+            return ("col", alias, e[2])
+        if e and e[0] in ("subq", "exists"):
+            return e
+        return tuple(_qualify(x, alias) for x in e)
+    if isinstance(e, list):
+        return [_qualify(x, alias) for x in e]
+    return e
+
+
+def _requalify(e, olds, new):
+    """Column references qualified by one of `olds` (or unqualified) get the qualifier `new`."""
+    if isinstance(e, tuple):
+        if len(e) == 3 and e[0] == "col" and (e[1] is None or e[1] in olds):
+            return ("col", new, e[2])
+        if e and e[0] in ("subq", "exists"):
+            return e
+        return tuple(_requalify(x, olds, new) for x in e)
+    if isinstance(e, list):
+        return [_requalify(x, olds, new) for x in e]
+    return e
+
+
+def _has_agg(e):
+    return any(x[0] == "call" and x[1] in ("AVG", "SUM", "TOTAL", "COUNT", "MIN", "MAX", "GROUP_CONCAT") and
+               not (x[1] in ("MIN", "MAX") and len(x[2]) > 1) for x in walk_expr(e))
+
+
+def _and(a, b):
+    if a is None:
+        return b
+    if b is None:
+        return a
+    return ("bin", "AND", a, b)
+
+
+def _flatten_join(sel, k, src, q):
+    """Inline a projection-only sub-select / CTE whose FROM is an inner join of several tables: its sources take its place
+    (aliases kept; refused when one of them is already used outside), references `alias.col` to its output columns are
+    substituted by the defining expressions, its WHERE is ANDed."""
+    outer_aliases = {x.alias for x in sel.sources if x is not src}
+    if any(x.alias in outer_aliases for x in q.sources):
+        return False
+    mapping = {}
+    for e, a in q.columns:
+        name = a or (e[2] if e[0] == "col" else None)
+        if name is None:
+            return False
+        mapping[name] = e
+    only_source = len(sel.sources) == 1
+
+    def sub(e):
+        e = _subst_cols(e, mapping, src.alias)
+        if only_source:
+            e = _subst_cols(e, mapping, None)
+        return e
+    new_sources = []
+    for j, x in enumerate(q.sources):
+        ns = Source(x.table, x.alias)
+        ns.join, ns.on, ns.using = x.join, x.on, x.using
+        if j == 0:
+            ns.join = src.join
+            ns.on = None
+        new_sources.append(ns)
+    # the outer ON condition of the sub-select moves to its last table (all of them are inner joins: a conjunction anywhere)
+    if src.on is not None:
+        last = new_sources[-1]
+        last.on = _and(last.on, sub(src.on)) if last.join is not None else None
+        if last.join is None:
+            sel.where = _and(sel.where, sub(src.on))
+    sel.sources[k:k + 1] = new_sources
+    sel.columns = [(sub(e), a or (e[2] if e[0] == "col" else None)) for e, a in sel.columns]
+    sel.where = _and(sub(sel.where) if sel.where is not None else None, q.where)
+    for other in sel.sources:
+        if other not in new_sources and other.on is not None:
+            other.on = sub(other.on)
+    sel.group_by = [sub(e) for e in sel.group_by]
+    sel.having = sub(sel.having) if sel.having is not None else None
+    sel.order_by = [(sub(e), d) for e, d in sel.order_by]
+    return True
+
+
+def normalize_select(sel):
+    """Normal forms of a SELECT (kept behaviour-identical; the original select list aliases are kept):
+       S1  ORDER BY <ordinal> / ORDER BY <select-list alias>  ->  the select-list expression;
+       S2  a FROM-less select list made only of scalar aggregate sub-queries over the same FROM / WHERE  ->  one SELECT;
+       S3  a projection-only CTE or FROM sub-select (no DISTINCT / GROUP BY / aggregate / LIMIT / compound / ORDER BY
+           needed, inner joins only, one source) is inlined: its source takes its place, its columns are substituted,
+           its WHERE is ANDed."""
+    try:
+        # ---- S2
+        if not sel.sources and sel.columns and all(e[0] == "subq" for e, _ in sel.columns) and sel.where is None and not sel.compound:
+            subs = [e[1] for e, _ in sel.columns]
+            def sig(q):
+                return (tuple((x.table, x.alias, x.join, expr_str(x.on) if x.on else None, tuple(x.using or ())) for x in q.sources), expr_str(q.where) if q.where else None)
+            if all(len(q.columns) == 1 and _has_agg(q.columns[0][0]) and not q.group_by and not q.distinct and not q.compound and q.limit is None
+                   and not q.ctes and all(x.subq is None for x in q.sources) for q in subs) and len({sig(q) for q in subs}) == 1:
+                first = subs[0]
+                sel.sources = first.sources
+                sel.where = first.where
+                sel.columns = [(q.columns[0][0], a or q.columns[0][1]) for q, (_e, a) in zip(subs, sel.columns)]
+        # ---- S3
+        ctes = dict(sel.ctes)
+        changed = True
+        rounds = 0
+        while changed and rounds < 4:
+            changed = False
+            rounds += 1
+            for k, src in enumerate(list(sel.sources)):
+                q = src.subq if src.subq is not None else (ctes.get(src.table) if src.table in ctes else None)
+                if q is None or src.join == "LEFT" or src.using or getattr(src, "natural", False):
+                    continue
+                if q.distinct or q.group_by or q.having or q.compound or q.limit is not None or q.ctes or not q.sources \
+                        or any(x.subq is not None or x.join == "LEFT" or getattr(x, "natural", False) for x in q.sources) \
+                        or any(_has_agg(e) or e[0] == "star" for e, _ in q.columns):
+                    continue
+                if len(q.sources) > 1:
+                    done = _flatten_join(sel, k, src, q)
+                    if done:
+                        changed = True
+                        break
+                    continue
+                # a CTE referenced more than once is not inlined
+                if src.subq is None and sum(1 for x in sel.sources if x.table == src.table) > 1:
+                    continue
+                inner = q.sources[0]
+                outer_alias = src.alias
+                inner_alias = outer_alias      # the flattened table takes the sub-select's alias: references stay valid
+                mapping = {}
+                for e, a in q.columns:
+                    name = a or (e[2] if e[0] == "col" else None)
+                    if name is None:
+                        mapping = None
+                        break
+                    mapping[name] = _requalify(e, {inner.alias, inner.table}, inner_alias)
+                if mapping is None:
+                    continue
+                only_source = len(sel.sources) == 1
+                def sub(e):
+                    e = _subst_cols(e, mapping, outer_alias)
+                    if only_source:
+                        e = _subst_cols(e, mapping, None)
+                    return e
+                new_src = Source(inner.table, inner_alias)
+                new_src.join = src.join
+                new_src.on = sub(src.on) if src.on is not None else None
+                sel.sources[k] = new_src
+                sel.columns = [(sub(e), a or (e[2] if e[0] == "col" else None)) for e, a in sel.columns]
+                sel.where = _and(sub(sel.where) if sel.where is not None else None,
+                                 _requalify(q.where, {inner.alias, inner.table}, inner_alias) if q.where is not None else None)
+                for other in sel.sources:
+                    if other is not new_src and other.on is not None:
+                        other.on = sub(other.on)
+                sel.group_by = [sub(e) for e in sel.group_by]
+                sel.having = sub(sel.having) if sel.having is not None else None
+                sel.order_by = [(sub(e), d) for e, d in sel.order_by]
+                if not sel.order_by and q.order_by and only_source:
+                    # the inner ordering is what a scan of the flattened query follows (SQLite flattens such sub-selects)
+                    sel.order_by = [(_requalify(e, {inner.alias, inner.table}, inner_alias), d) for e, d in q.order_by]
+                changed = True
+                break
+        if any(src.table in ctes for src in sel.sources) is False:
+            pass
+        # ---- S1
+        names = {}
+        for e, a in sel.columns:
+            if a:
+                names.setdefault(a, e)
+        new_ob = []
+        for e, d in sel.order_by:
+            if e[0] == "num":
+                try:
+                    k = int(str(e[1]))
+                except ValueError:
+                    k = None
+                if k is not None and 1 <= k <= len(sel.columns) and "." not in str(e[1]):
+                    e = sel.columns[k - 1][0]
+            elif e[0] == "col" and e[1] is None and e[2] in names:
+                e = names[e[2]]
+            new_ob.append((e, d))
+        sel.order_by = new_ob
+    except Exception:      # a normal form that fails leaves the statement as parsed
+        pass
+    return sel
 
 
 def expr_str(e):
